@@ -89,6 +89,7 @@ type Exec struct {
 	maxSteps int
 	maxPaths int
 	harness  string
+	pkgRel   string // package directory relative to the repository root
 	caseVals map[string]int64
 	verbose  bool
 	concrete map[string]string // concrete input vector (differential mode)
